@@ -1131,19 +1131,53 @@ inline std::string mutate(const std::string& s, vf::Rng& r) {
 inline std::string hostile_text(vf::Rng& r, size_t max_len) {
   std::string t;
   size_t n = r.range(1, max_len);
-  switch (r.below(12)) {
+  switch (r.below(14)) {
+    case 12:
+    case 13: {  // several nesting peaks around the depths where containers of bookkeeping structures change representation
+      // (16, 32, 64, 128, 1024): valid text, random walk of the depth between peaks
+      static const size_t marks[] = {16, 32, 64, 128, 256, 1024};
+      size_t mark = marks[r.below(6)];
+      size_t depth = 0;
+      std::string closers;
+      auto open_to = [&](size_t d) {
+        while (depth < d) {
+          if (r.below(4) == 0) { t += "{\"a\":"; closers += '}'; } else { t += "["; closers += ']'; }
+          depth++;
+        }
+      };
+      auto close_to = [&](size_t d) {
+        while (depth > d) {
+          if (t.back() == '[' || t.back() == ':') t += "1";
+          t += closers.back();
+          closers.pop_back();
+          depth--;
+        }
+      };
+      int peaks = (int)r.range(2, 5);
+      for (int k = 0; k < peaks; k++) {
+        open_to(mark + r.range(0, 8) - (r.below(3) == 0 ? r.range(0, 2) : 0));
+        close_to(mark - r.range(1, 10));
+        // after closing a child the next sibling needs a separator
+        if (closers.back() == ']') t += ","; else t += ",\"b" + std::to_string(k) + "\":";
+      }
+      t += "1";
+      close_to(0);
+      if (r.below(6) == 0) t.resize(r.below(t.size()));  // sometimes truncated
+      break;
+    }
     case 10:
     case 11: {  // opener flood (more containers than the text can legally hold), then members and closers
       bool obj = r.below(3) == 0;
       size_t d = r.range(1, n);
       for (size_t i = 0; i < d; i++) t += obj ? (r.coin() ? "{\"a\":" : "[{\"k\":") : "[";
-      static const char* elems[] = {"null", "true", "false", "\"s\"", "1", "[]", "{}", "-0.5"};
+      static const char* elems[] = {"null", "true", "false", "\"s\"", "1", "[]", "{}", "-0.5", "0.30000000000000004", "1.2345678901234567e+30",
+                                    "12345678901234567890", "-9223372036854775809"};
       size_t m = r.range(0, 12);
-      const char* e = elems[r.below(8)];
+      const char* e = elems[r.below(12)];
       for (size_t i = 0; i < m; i++) {
         if (i) t += ",";
         if (obj) t += "\"k" + std::to_string(i) + "\":";
-        t += r.below(4) ? e : elems[r.below(8)];
+        t += r.below(4) ? e : elems[r.below(12)];
       }
       size_t c = r.range(0, 3);
       for (size_t i = 0; i < c; i++) t += obj ? "}" : "]";
